@@ -364,7 +364,9 @@ Qed.
 Section Structures.
   Variable undict : str -> str.
 
-  Definition QT (t : token) : Prop := tok_ok true undict t = true.
+  (* what the lexer guarantees for every source: names are identifier characters, numbers are
+     number characters; string contents are arbitrary (Provenance.tok_ok, lenient form) *)
+  Definition QT (t : token) : Prop := tok_ok false undict t = true.
 
   Lemma break_LT p n : LT (4 * n) (break_text p n) (shape_break p).
   Proof.
@@ -564,8 +566,8 @@ Qed.
 
 (* every structure, any nesting, any indentation, any counters, any dictionary function: the
    emitted text lays out as `shape s`.  Side conditions: the token payloads are what the
-   lexer delivers (tree_ok: names are identifier characters, numbers are number characters,
-   no carriage return inside a string after decompression) and no `if` without branches
+   lexer delivers (tree_ok: names are identifier characters, numbers are number characters;
+   string contents and what the dictionary makes of them are arbitrary) and no `if` without branches
    (the parser never builds one). *)
 Theorem layout_tr undict s n c text c' :
   tree_ok (QT undict) s -> ifs_nonempty s = true ->
@@ -587,59 +589,37 @@ Proof.
 Qed.
 
 (* ---- from the source text -------------------------------------------------------------------------------------------- *)
-(* the dictionary function does not introduce a carriage return *)
-Definition undict_no_cr (undict : str -> str) : Prop := forall s, mem 13 s = false -> mem 13 (undict s) = false.
-
-Lemma tok_lex_ok_nocr undict t : undict_no_cr undict ->
-  tok_lex_ok (fun c => negb (N.eqb c 13)) t = true -> tok_ok true undict t = true.
+(* every tree the parser returns, for any source text and any dictionary function *)
+Theorem parsed_tree_ok undict src l : parse_source src = Ok l -> Forall (tree_ok (QT undict)) l.
 Proof.
-  intro Hu. unfold tok_lex_ok, tok_ok. destruct (tk t); intro H; try reflexivity; try exact H;
-    try (apply name_chars_ident; exact H).
-  simpl. rewrite (Hu _ (forallb_mem_false _ _ 13 H eq_refl)). reflexivity.
-Qed.
-
-Theorem parsed_tree_ok undict src l : undict_no_cr undict -> mem 13 src = false ->
-  parse_source src = Ok l -> Forall (tree_ok (QT undict)) l.
-Proof.
-  intros Hu Hcr Hp. unfold parse_source, parse_tokens in Hp.
+  intros Hp. unfold parse_source, parse_tokens in Hp.
   eapply (parse_Q (QT undict) eq_refl); [|exact Hp].
-  apply (lexer_tokens_ok true undict (fun c => negb (N.eqb c 13)) false src).
-  - intros t. apply tok_lex_ok_nocr. exact Hu.
-  - apply no_cr_forallb. exact Hcr.
+  apply (lexer_tokens_ok false undict (fun _ => true) false src).
+  - intros t. apply tok_lex_ok_lenient.
+  - apply forallb_const_true.
 Qed.
 
-(* C02 end to end, for ALL program texts and any dictionary function: the text the transpiler
+(* C02 end to end, for ALL program texts and ANY dictionary function: the text the transpiler
    emits is accepted by Coq's reading of Python's block structure and context conditions.
-   Hypotheses beyond "it parses and transpiles":
-   - wconds: no early exit in a while condition (the recorded defect class, refuted below);
-   - no carriage return in the source and none introduced by the dictionary: Python reads a
-     raw CR as a line end, so a string literal containing one is unterminated; the code page
-     has no CR (mem 13 codepage = false, `codepage_no_cr`). *)
+   The only hypothesis beyond "it parses and transpiles" is wconds: no early exit in a while
+   condition (the recorded defect class, rejected below). *)
 Theorem text_accepted undict src l text :
-  undict_no_cr undict -> mem 13 src = false ->
   parse_source src = Ok l -> forallb wconds l = true ->
   transpile_ast undict l = TOk text -> accepts text = true.
 Proof.
-  intros Hu Hcr Hp Hw Ht. unfold accepts.
+  intros Hp Hw Ht. unfold accepts.
   rewrite (layout_program undict l text); [|eapply parsed_tree_ok; eassumption| |exact Ht].
   - apply program_py_wf. eapply parsed_ctx_ok; [exact Hp|exact Hw].
   - unfold parse_source, parse_tokens in Hp. eapply parse_ne. exact Hp.
 Qed.
 
-Lemma undict_id_no_cr : undict_no_cr (fun s => s).
-Proof. intros s H. exact H. Qed.
-
-Lemma codepage_no_cr : mem 13 codepage = false.
-Proof. vm_compute. reflexivity. Qed.
-
 Corollary text_accepted_nodict src text :
-  mem 13 src = false ->
   (exists l, parse_source src = Ok l /\ forallb wconds l = true) ->
   transpile_nodict src = OText text -> accepts text = true.
 Proof.
-  intros Hcr [l [Hp Hw]] H. unfold transpile_nodict in H. rewrite Hp in H.
+  intros [l [Hp Hw]] H. unfold transpile_nodict in H. rewrite Hp in H.
   destruct (transpile_ast (fun s => s) l) as [x|e] eqn:E; [|discriminate]. inversion H; subst.
-  exact (text_accepted (fun s => s) src l text undict_id_no_cr Hcr Hp Hw E).
+  exact (text_accepted (fun s => s) src l text Hp Hw E).
 Qed.
 
 (* ---- the theorems are not vacuous, the checker rejects what it should -------------------------------------------- *)
@@ -666,6 +646,23 @@ Proof. vm_compute. reflexivity. Qed.
 Example layout_cr_escaped : exists l text,
   parse_source [96;13;96] = Ok l /\ forallb wconds l = true /\ transpile_ast (fun s => s) l = TOk text /\ accepts text = true.
 Proof. eexists. eexists. split; [vm_compute; reflexivity|]. repeat split; vm_compute; reflexivity. Qed.
+
+(* backslash + carriage return written in a string, inside a loop: 3(`a\<CR>b`).  The pair is passed
+   through, CPython reads it as a line continuation inside the literal, Layout as an escape pair.
+   (The implementation's helpers.indent_str = textwrap.indent also splits at the CR and puts the
+   indentation after it, inside the literal; Model/Transpile.v splits at newline only -- its stated
+   scope of exactness -- so on this program the implementation's text has four more spaces inside
+   the literal than the model's.  Both texts compile; Layout accepts both: second conjunct.) *)
+Example layout_backslash_cr :
+  (exists l text, parse_source [51;40;96;97;92;13;98;96;41] = Ok l /\ transpile_ast (fun s => s) l = TOk text /\
+                  mem 13 text = true /\ accepts text = true)
+  /\ accepts (L "if x:" ++ [nl] ++ L "    stack.append(""a\" ++ [13] ++ L "    b"")" ++ [nl]) = true.
+Proof. split; [eexists; eexists; split; [vm_compute; reflexivity|repeat split; vm_compute; reflexivity]|vm_compute; reflexivity]. Qed.
+
+(* a raw carriage return anywhere else is rejected, as CPython does *)
+Example layout_raw_cr_rejected :
+  accepts (L "stack.append(""a" ++ [13] ++ L "b"")" ++ [nl]) = false.
+Proof. vm_compute. reflexivity. Qed.
 
 (* a string literal continued over two physical lines is ONE logical line *)
 Example layout_continuation : exists text,
